@@ -106,6 +106,14 @@ func (s *SequencerSyncer) handlePotentialReorg(ctx context.Context, header *type
 		return errors.Wrap(err, "failed to query transaction submitted events sync status")
 	}
 
+	if header.Number.Int64() > syncedUntil.BlockNumber+1 {
+		// The new head is not the child of the synced block, so its parent hash says nothing
+		// about the synced block. Check the chain's current child of the synced block instead.
+		header, err = s.ExecutionClient.HeaderByNumber(ctx, big.NewInt(syncedUntil.BlockNumber+1))
+		if err != nil {
+			return errors.Wrap(err, "failed to get the header following the synced block")
+		}
+	}
 	numReorgedBlocks := getNumReorgedBlocks(&syncedUntil, header)
 	if numReorgedBlocks > 0 {
 		return s.resetSyncStatus(ctx, numReorgedBlocks)
